@@ -357,13 +357,16 @@ def handle (toks : List String) : Option String :=
     let sizes ← parseIds sizes
     let oids ← parseIds o
     let oix := tilingIndex sizes oids
-    let nix := tilingIndex sizes (← parseIds n)
+    let nids ← parseIds n
+    let nix := tilingIndex sizes nids
     let st : OutSt Nat := ⟨tilingBytes sizes oids, nix, []⟩
     match st.reorderInPlace oix with
     | none => some "io-error"
     | some (st', ret) =>
       let left := (st'.index.keys.toArray.qsort (· < ·)).toList
-      some s!"ret={ret} left={joinWith "." (left.map toString)} file={digest st'.file} log={joinWith "," (st'.log.map showIo)}"
+      -- then every source chunk is fed once, in source order
+      let fin := nids.eraseDups.foldl (fun s id => (s.feed id (chunkBytes id (sizes.getD id 0))).1) st'
+      some s!"ret={ret} left={joinWith "." (left.map toString)} file={digest fin.file} log={joinWith "," (fin.log.map showIo)}"
   -- chunk <config> <data> <read script> : model of the streaming chunker under that delivery
   | ["chunk", cfg, data, script] => do
     some (showChunks (chunkStream (← parseConfig cfg) (← parseData data) (← parseRdScript script)))
